@@ -9,7 +9,9 @@ import (
 	"github.com/ChainSafe/gossamer/internal/primitives/core/hash"
 	"github.com/ChainSafe/gossamer/internal/primitives/runtime"
 	"github.com/ChainSafe/gossamer/pkg/trie"
+	"github.com/ChainSafe/gossamer/pkg/scale"
 	"github.com/ChainSafe/gossamer/pkg/trie/inmemory"
+	"github.com/ChainSafe/gossamer/pkg/trie/inmemory/proof"
 	"github.com/ChainSafe/gossamer/pkg/trie/triedb"
 	"github.com/ChainSafe/gossamer/verifsim/simdisk"
 	su "github.com/ChainSafe/gossamer/verifsim/storeutil"
@@ -122,4 +124,39 @@ func TestReopenPut(t *testing.T) {
 	err := f.Put([]byte{0x00}, []byte{0x9b})
 	fmt.Println(err)
 	fmt.Printf("%x\n", f.MustHash().Bytes()[:4])
+}
+
+func TestLongKeyProof(t *testing.T) {
+	kb := []byte{0x00, 0x01, 0x10, 0x11, 0xf0, 0xff, 0x0a, 0xa0}
+	for _, n := range []int{33, 64, 70, 160} {
+		key := make([]byte, n)
+		for i := range key {
+			key[i] = kb[(i*7+n)%8]
+		}
+		d := simdisk.NewDisk()
+		tr := inmemory.NewEmptyTrie()
+		tr.Put(key, []byte{1, 2, 3})
+		tr.Put([]byte{0x55}, []byte{1, 2, 3})
+		if err := tr.WriteDirty(d.Open()); err != nil {
+			t.Fatal(err)
+		}
+		root := tr.MustHash()
+		fmt.Println("generating", n)
+		nodes, err := proof.Generate(root[:], [][]byte{key}, d.Open())
+		fmt.Println(n, len(nodes), err)
+		fmt.Println(proof.Verify(nodes, root[:], key, []byte{1, 2, 3}))
+	}
+}
+
+func TestScaleBomb(t *testing.T) {
+	// vec of 1 element, element declares 0x3ccde8f3 bytes (4-byte compact mode), carries 3
+	n := uint32(0x3ccde8f3)
+	c := n<<2 | 2
+	enc := []byte{0x04, byte(c), byte(c >> 8), byte(c >> 16), byte(c >> 24), 1, 2, 3}
+	var got [][]byte
+	err := scale.Unmarshal(enc, &got)
+	fmt.Println(err, len(got))
+	if len(got) > 0 {
+		fmt.Println(len(got[0]))
+	}
 }
